@@ -53,6 +53,12 @@ def rule_residual_unprec(model: Model):
     for n in ast.walk(f.node):
         if isinstance(n, ast.Assign) and len(n.targets) == 1 and isinstance(n.targets[0], ast.Name):
             defs.setdefault(n.targets[0].id, []).append(n)
+    # ... and the locals those are computed from (Ax = Op.matvec(..); drhs = rhs - Ax), a few levels deep
+    for _ in range(3):
+        more = {x.id for nm in rhs_names for d in defs.get(nm, []) for x in ast.walk(d.value) if isinstance(x, ast.Name) and x.id in defs}
+        if more <= rhs_names:
+            break
+        rhs_names |= more
     calls = []
     for nm in sorted(rhs_names):
         for d in defs.get(nm, []):
